@@ -59,6 +59,8 @@ static const char *BREAKS[][2] = {
   {"trip_path_uuid",   "a trip's pathUuid is not uuid text"},
   {"trip_empty",       "a trip has no stop times at all (all four arrays empty)"},
   {"trip_long",        "a trip has 3 more stop times than its path has stops"},
+  {"trip_long1",       "boundary: a trip has exactly one more stop time than its path has stops"},
+  {"trip_single",      "boundary: a trip has a single stop time (no connection)"},
   {"trip_short_dep",   "short parallel array: departure times one shorter than arrival times"},
   {"trip_short_flags", "short parallel arrays: canBoard / canUnboard one shorter than the times"},
   {"line_agency",      "a line refers to an agency uuid that agencies.capnpbin does not define"},
@@ -248,6 +250,8 @@ int main(int argc, char **argv) {
         size_t n = t.arr.size();
         if (B("trip_empty", tripCounter, NT)) n = 0;
         if (B("trip_long", tripCounter, NT)) n += 3;
+        if (B("trip_long1", tripCounter, NT)) n = paths[t.path].stops.size() + 1;
+        if (B("trip_single", tripCounter, NT)) n = 1;
         size_t ndep = n, nfl = n;
         if (B("trip_short_dep", tripCounter, NT) && ndep > 0) ndep--;
         if (B("trip_short_flags", tripCounter, NT) && nfl > 0) nfl--;
